@@ -26,6 +26,7 @@ const straceSyscalls = "openat,write,pwrite64,rename,renameat,renameat2,unlink,u
 type recovered struct {
 	N     int               `json:"n"`
 	Err   string            `json:"err,omitempty"`
+	Err2  string            `json:"err2,omitempty"` // the recovered directory did not survive a write + second restart
 	Stack string            `json:"stack,omitempty"`
 	Units map[string]string `json:"units,omitempty"`
 	Left  []string          `json:"left,omitempty"` // leftover temporary files present in the image
@@ -43,9 +44,13 @@ func leftovers(dir string) []string {
 	return out
 }
 
-// openImage does what a server start does with the data (Server.Open: translate store,
-// then holder) and projects the recovered state.
-func openImage(dir string) (units map[string]string, err error) {
+const (
+	probeRow    = 7   // row written by the post-recovery probe into every fragment (60 in the int field)
+	probeColOff = 777 // column offset within the shard, outside the universe
+	probeKey    = "key-probe"
+)
+
+func openHolder(dir string) (*pilosa.Holder, *pilosa.TranslateFile, error) {
 	h := pilosa.NewHolder()
 	h.Path = dir
 	tf := pilosa.NewTranslateFile(pilosa.OptTranslateFileMapSize(1 << 22))
@@ -53,20 +58,111 @@ func openImage(dir string) (units map[string]string, err error) {
 	pilosa.VerifDurSetTranslateFile(h, tf)
 	if err := tf.Open(); err != nil {
 		_ = tf.Close()
-		return nil, fmt.Errorf("opening TranslateFile: %v", err)
+		return nil, nil, fmt.Errorf("opening TranslateFile: %v", err)
 	}
 	if err := h.Open(); err != nil {
 		_ = h.Close()
-		return nil, fmt.Errorf("opening Holder: %v", err)
+		return nil, nil, fmt.Errorf("opening Holder: %v", err)
+	}
+	return h, tf, nil
+}
+
+// stripProbe removes what the probe added from a projection.
+func stripProbe(u map[string]string) map[string]string {
+	out := map[string]string{}
+	for k, v := range u {
+		var keep []string
+		for _, w := range strings.Fields(v) {
+			if strings.HasPrefix(w, fmt.Sprintf("%d:", probeRow)) || strings.HasSuffix(w, "=probe") {
+				continue
+			}
+			keep = append(keep, w)
+		}
+		if len(keep) == 0 {
+			continue
+		}
+		if strings.HasPrefix(k, "keys/") || isIntUnit(k) {
+			out[k] = strings.Join(keep, " ") + " "
+		} else {
+			out[k] = strings.Join(keep, " ")
+		}
+	}
+	return out
+}
+
+// openImage does what a server start does with the data (Server.Open: translate store,
+// then holder) and projects the recovered state. It then checks that the recovered
+// directory is a sound basis: one more entry is appended to every fragment's op log and
+// to the translate log, the holder is closed, and a second start must succeed and read
+// the same state (err2 otherwise) - a history continues after a restart.
+func openImage(dir string) (units map[string]string, err error, err2 error) {
+	h, tf, err := openHolder(dir)
+	if err != nil {
+		return nil, err, nil
 	}
 	s, perr := project(h, tf)
-	if cerr := h.Close(); cerr != nil && perr == nil {
-		perr = fmt.Errorf("closing recovered holder: %v", cerr)
-	}
 	if perr != nil {
-		return nil, perr
+		_ = h.Close()
+		return nil, perr, nil
 	}
-	return s.units(), nil
+	units = s.units()
+	// probe
+	probed := 0
+	probes := map[string]uint64{} // fragment -> position written
+	for k := range pilosa.VerifDurFragments(h) {
+		parts := strings.Split(k, "/")
+		var shard uint64
+		fmt.Sscanf(parts[3], "%d", &shard)
+		row := uint64(probeRow)
+		if parts[1] == "v" {
+			row = 60
+		}
+		if _, e := pilosa.VerifDurSetBit(h, parts[0], parts[1], parts[2], shard, row, shard*sw+probeColOff); e != nil {
+			err2 = fmt.Errorf("write to %s after the restart: %v", k, e)
+		}
+		probes[k] = row*sw + probeColOff
+		probed++
+	}
+	if _, e := tf.TranslateColumnsToUint64(idxK, []string{probeKey}); e != nil && err2 == nil {
+		err2 = fmt.Errorf("key allocation after the restart: %v", e)
+	}
+	if cerr := h.Close(); cerr != nil && err2 == nil {
+		err2 = fmt.Errorf("closing the recovered holder: %v", cerr)
+	}
+	if err2 != nil {
+		return units, nil, err2
+	}
+	h2, tf2, e := openHolder(dir)
+	if e != nil {
+		return units, nil, fmt.Errorf("second restart (after %d fragment appends and a key allocation): %v", probed, e)
+	}
+	s2, perr2 := project(h2, tf2)
+	raw2 := pilosa.VerifDurFragments(h2)
+	_ = h2.Close()
+	for k, pos := range probes {
+		found := false
+		for _, p := range raw2[k] {
+			if p == pos {
+				found = true
+				break
+			}
+		}
+		if !found {
+			return units, nil, fmt.Errorf("second restart: the bit written to %s after the first restart is gone", k)
+		}
+	}
+	if perr2 != nil {
+		return units, nil, fmt.Errorf("second restart: %v", perr2)
+	}
+	u2 := s2.units()
+	nkeys := len(s.ColKeys)
+	if got := s2.ColKeys[fmt.Sprint(nkeys+1)]; got != "probe" {
+		return units, nil, fmt.Errorf("second restart: the key allocated after the first restart reads as %q (id %d)", got, nkeys+1)
+	}
+	if d := diffUnits(stripProbe(units), stripProbe(u2)); d != "" {
+		return units, nil, fmt.Errorf("second restart reads a different state: %s", d)
+	}
+	return units, nil, nil
 }
 
 // TestC09Recover is the fresh process that opens every crash image below
@@ -84,9 +180,12 @@ func TestC09Recover(t *testing.T) {
 		dir := filepath.Join(out, "img", strconv.Itoa(p.N))
 		r := recovered{N: p.N, Left: leftovers(dir)}
 		pv, stack := behav.Protect(func() {
-			u, err := openImage(dir)
+			u, err, err2 := openImage(dir)
 			if err != nil {
 				r.Err = err.Error()
+			}
+			if err2 != nil {
+				r.Err2 = err2.Error()
 			}
 			r.Units = u
 		})
@@ -138,6 +237,31 @@ func (p point) lastOn(u string) string {
 		}
 	}
 	return "none"
+}
+
+// progressOn tells whether the step in flight was interrupted inside its sequence of
+// syscalls of that kind on the unit ("partial": more of them follow in the recording) or
+// after the last one ("complete"); "none" when the last change of the unit is not the
+// in-flight step's.
+func (p point) progressOn(u string, inflight int) string {
+	parts := strings.Split(u, "/")
+	real := u
+	if parts[0] == "keys" {
+		real = "keys"
+	} else if len(parts) == 4 {
+		if r, ok := viewName[parts[2]]; ok {
+			parts[2] = r
+		}
+		real = strings.Join(parts, "/")
+	}
+	l, ok := p.Last[real]
+	if !ok || len(l) < 4 || inflight == 0 || behav.ToInt(l[2]) != inflight {
+		return "none"
+	}
+	if behav.ToInt(l[1]) < behav.ToInt(l[3]) {
+		return "partial"
+	}
+	return "complete"
 }
 
 type pointsFile struct {
@@ -344,6 +468,14 @@ func judge(beh behav.Behaviour, S []map[string]string, p point, ob [2]int, rec r
 		return false, map[string]string{"op": op, "crash_after": p.After, "symptom": sym},
 			fmt.Sprintf("restart fails: %s", rec.Err)
 	}
+	if rec.Err2 != "" {
+		op := opKind(inflight)
+		if inflight == 0 {
+			op = opKind(acked)
+		}
+		return false, map[string]string{"op": op, "field": "", "crash_after": p.After, "symptom": "broken_after_restart"},
+			fmt.Sprintf("the first restart succeeded, but %s", rec.Err2)
+	}
 	a := S[acked]
 	b := a
 	if inflight > 0 && inflight < len(S) {
@@ -401,7 +533,8 @@ func judge(beh behav.Behaviour, S []map[string]string, p point, ob [2]int, rec r
 		}
 		// crash_after names the last syscall that changed this unit (not the globally last
 		// one, which may belong to a background snapshot of another fragment)
-		return false, map[string]string{"op": op, "field": fieldOfUnit(u), "crash_after": p.lastOn(u), "symptom": sym},
+		return false, map[string]string{"op": op, "field": fieldOfUnit(u), "crash_after": p.lastOn(u),
+				"progress": p.progressOn(u, inflight), "symptom": sym},
 			fmt.Sprintf("unit %s recovered as [%s]; acknowledged state [%s], with the in-flight write [%s]", u, r, a[u], b[u])
 	}
 	return true, nil, ""
@@ -550,12 +683,12 @@ func tail(s string, n int) string {
 	return s
 }
 
+// sameMatch compares two failure signatures for the replay: operation, field and symptom
+// must agree; the syscall the crash point follows may differ between two runs of the same
+// history when a background snapshot is involved.
 func sameMatch(a, b map[string]string) bool {
-	if len(a) != len(b) {
-		return false
-	}
-	for k, v := range a {
-		if b[k] != v {
+	for _, k := range []string{"op", "field", "symptom"} {
+		if a[k] != b[k] {
 			return false
 		}
 	}
